@@ -295,7 +295,12 @@ class NDNApp:
                 if not self.face.running:
                     # The connection is gone; the remaining routes are registered on the next connection
                     break
-                await self.register(name, route, validator, need_raw_packet, need_sig_ptrs)
+                try:
+                    await self.register(name, route, validator, need_raw_packet, need_sig_ptrs)
+                except ValueError as e:
+                    # A prefix that was declared twice: the second declaration is refused, the remaining routes
+                    # and after_start are not affected
+                    self.logger.error(f'Route {Name.to_str(name)} is not registered: {e}')
             if after_start:
                 try:
                     await after_start
